@@ -577,13 +577,30 @@ func runR5(c *Ctx) {
 		return hit
 	}
 	if !hasTableLookup(fn) {
-		eachInstr(fn, func(in ssa.Instruction) {
-			if call, ok := in.(*ssa.Call); ok {
-				if callee := call.Call.StaticCallee(); callee != nil && callee.Pkg == fn.Pkg && hasTableLookup(callee) {
-					fn = callee
-				}
+		// breadth first through the static callees of the same package, three levels deep
+		level := []*ssa.Function{fn}
+		seenF := map[*ssa.Function]bool{fn: true}
+		var hitFn *ssa.Function
+		for d := 0; d < 3 && hitFn == nil; d++ {
+			var next []*ssa.Function
+			for _, f := range level {
+				eachInstr(f, func(in ssa.Instruction) {
+					if call, ok := in.(*ssa.Call); ok {
+						if callee := call.Call.StaticCallee(); callee != nil && callee.Pkg == fn.Pkg && callee.Blocks != nil && !seenF[callee] {
+							seenF[callee] = true
+							next = append(next, callee)
+							if hitFn == nil && hasTableLookup(callee) {
+								hitFn = callee
+							}
+						}
+					}
+				})
 			}
-		})
+			level = next
+		}
+		if hitFn != nil {
+			fn = hitFn
+		}
 	}
 	found := 0
 	eachInstr(fn, func(in ssa.Instruction) {
